@@ -1,6 +1,1048 @@
-//! C14 — stub (to be implemented).
+//! C14 — writers never hide a sink failure and tolerate short writes.
+//!
+//! Monitor: every canonical write history of the corpus crate (one per writable item of every writer kind; the
+//! BGZF items additionally through `MultithreadedWriter` and through a writer that is dropped without `finish`)
+//! is replayed on `vcore::adv::FaultyWrite` sinks:
+//!
+//! (a) healthy sink: every call Ok, sink bytes == `item.bytes` (CRAM: equal transcripts, equal length);
+//!     N = number of sink calls (write + flush);
+//! (b) for EVERY k in 0..N the history is replayed on a sink whose call k fails, once sticky and once transient,
+//!     error kinds rotating over `ERROR_KINDS`: REFUTED iff the sink returned an error to noodles but every
+//!     writer call of the history (finishing call included) returned Ok; whenever all calls returned Ok the sink
+//!     content must decode to the transcript of `item.bytes`;
+//! (c) short-write sinks (1 byte, 7 bytes, half, random) and sinks that return `Interrupted` before write calls
+//!     (first, every 3rd, random quarter, every): all calls Ok, output byte-identical to the healthy output;
+//! (d) a BGZF writer dropped without `finish` on a healthy sink leaves a walkable file with the complete payload and
+//!     the EOF marker; on a failing sink (every k) the drop does not panic, and a failure that happened during the
+//!     explicit write/flush calls is reported by one of them.
+//!
+//! A panic anywhere is a violation (`guard::catch`; a panic while unwinding aborts the child process and is
+//! attributed to the case by the runner as `process-abort`).
+//!
+//! Violation signatures: `<writer>:<class>:<phase>` with writer = corpus kind name (`bgzf-mt` / `bgzf-drop` for the
+//! two extra BGZF drivers), class ∈ {swallowed-sink-error, not-ok-on-healthy-sink, output-differs-on-healthy-sink,
+//! output-differs-under-short-writes, error-under-short-writes, output-differs-under-interrupts,
+//! error-under-interrupts, output-undecodable-after-ok, drop-loses-data, panic}, phase ∈ {header, record, finish,
+//! eof-marker} = what the failing sink call was emitting in the healthy run (derived from the byte offset of the
+//! call in the healthy output, see `phase_table`), or the phase of the first differing byte.
+
+mod alt;
+
+use std::{
+    collections::{BTreeMap, BTreeSet},
+    io::{self, Write},
+    sync::{Arc, Mutex},
+};
+
+use corpus::{Item, Kind, Model, Prepared};
+use noodles_bgzf as bgzf;
+use serde_json::{Value, json};
+use vcore::{
+    CaseOut, Ctx, Report, Rng,
+    adv::{Accept, ERROR_KINDS, FaultMode, FaultyWrite, Injected, is_injected},
+    bgzf as obgzf, guard,
+    rng::fnv1a,
+    run_cases,
+};
+
+// ---------------------------------------------------------------------------------------------------------------
+// histories
+
+#[derive(Clone, Copy, Debug, PartialEq, Eq, PartialOrd, Ord)]
+enum Drive {
+    /// `corpus::write_prepared` (the canonical history of the kind)
+    Std,
+    /// `corpus::write_history_bgzf_mt` (Kind::Bgzf through `MultithreadedWriter`)
+    BgzfMt,
+    /// Kind::Bgzf, writer dropped without finish
+    BgzfDrop,
+    /// only the calls of `sam::alignment::io::Write` (finish(&header) is the finishing call), then drop
+    Trait,
+    /// `noodles_util::{alignment, variant}::io::Writer`
+    Util,
+    /// the format crate's `io::writer::Builder::build_from_writer` (buffering layer created inside noodles)
+    Builder,
+}
+
+impl Drive {
+    fn name(self) -> &'static str {
+        match self {
+            Drive::Std => "std",
+            Drive::BgzfMt => "mt",
+            Drive::BgzfDrop => "drop",
+            Drive::Trait => "trait",
+            Drive::Util => "util",
+            Drive::Builder => "builder",
+        }
+    }
+}
+
+struct Hist {
+    item: usize,
+    drive: Drive,
+    /// sink calls of the healthy run made while generating the cases (0 if the healthy run failed)
+    n: usize,
+    /// sink calls of the healthy run on a sink that accepts half of every buffer (0 = not enumerated)
+    n_half: usize,
+}
+
+impl Hist {
+    fn writer_name(&self, items: &[Item]) -> String {
+        writer_name(items[self.item].kind, self.drive)
+    }
+}
+
+fn writer_name(kind: Kind, drive: Drive) -> String {
+    match drive {
+        Drive::Std => kind.name().to_string(),
+        Drive::BgzfMt => "bgzf-mt".to_string(),
+        Drive::BgzfDrop => "bgzf-drop".to_string(),
+        Drive::Trait => format!("{}@trait", kind.name()),
+        Drive::Util => format!("{}@util", kind.name()),
+        Drive::Builder => format!("{}@builder", kind.name()),
+    }
+}
+
+fn drives_of(kind: Kind) -> Vec<Drive> {
+    let mut v = vec![Drive::Std];
+    if kind == Kind::Bgzf {
+        v.push(Drive::BgzfMt);
+        v.push(Drive::BgzfDrop);
+    }
+    if alt::has_trait_history(kind) {
+        v.push(Drive::Trait);
+    }
+    if alt::has_util_history(kind) {
+        v.push(Drive::Util);
+    }
+    if alt::has_builder_history(kind) {
+        v.push(Drive::Builder);
+    }
+    v
+}
+
+#[derive(Clone, Debug)]
+enum Part {
+    /// healthy run, short-write patterns, Interrupted patterns (and the healthy drop check)
+    Base,
+    /// failing sink call k for every k in lo..hi (sticky and transient)
+    Faults { lo: usize, hi: usize },
+    /// the same on a sink that accepts half of every buffer (so that continuation writes of a `write_all` loop
+    /// fail as well): sticky failure of call k for every k in lo..hi of the healthy half-accepting run
+    FaultsHalf { lo: usize, hi: usize },
+}
+
+struct Case {
+    hist: usize,
+    part: Part,
+}
+
+/// A sink that records, for every call, whether it was a flush and how many bytes had been accepted before it.
+#[derive(Clone, Default)]
+struct Probe {
+    log: Arc<Mutex<ProbeLog>>,
+    /// accept half of every buffer (like `Accept::Half`)
+    half: bool,
+}
+
+#[derive(Clone, Copy, Debug)]
+struct Call {
+    flush: bool,
+    /// bytes accepted before the call
+    off: usize,
+    /// phase announced by the history (alt drives; 0 = not tracked)
+    tracked: u8,
+}
+
+#[derive(Default)]
+struct ProbeLog {
+    bytes: Vec<u8>,
+    calls: Vec<Call>,
+}
+
+impl Write for Probe {
+    fn write(&mut self, buf: &[u8]) -> io::Result<usize> {
+        let mut l = self.log.lock().unwrap();
+        let off = l.bytes.len();
+        l.calls.push(Call { flush: false, off, tracked: alt::phase() });
+        let n = if self.half && !buf.is_empty() { (buf.len() / 2).max(1) } else { buf.len() };
+        l.bytes.extend_from_slice(&buf[..n]);
+        Ok(n)
+    }
+
+    fn flush(&mut self) -> io::Result<()> {
+        let mut l = self.log.lock().unwrap();
+        let off = l.bytes.len();
+        l.calls.push(Call { flush: true, off, tracked: alt::phase() });
+        Ok(())
+    }
+}
+
+fn bgzf_ops<W: Write>(w: &mut W, payload: &[u8], ops: &[corpus::BgzfOp]) -> io::Result<()> {
+    let mut off = 0usize;
+    for op in ops {
+        match *op {
+            corpus::BgzfOp::Write(n) => {
+                let end = (off + n).min(payload.len());
+                w.write_all(&payload[off..end])?;
+                off = end;
+            }
+            corpus::BgzfOp::Flush => w.flush()?,
+        }
+    }
+    if off < payload.len() {
+        w.write_all(&payload[off..])?;
+    }
+    Ok(())
+}
+
+/// The same calls as `corpus::write_history_bgzf_drop`, with a hook between the last explicit call and the drop
+/// (so that the monitor knows how many sink calls were made by explicit calls and how many by `Drop`).
+fn bgzf_drop_history<W: Write>(p: &Prepared, sink: W, before_drop: impl FnOnce()) -> io::Result<()> {
+    let Model::Bgzf { payload, ops } = &p.model else {
+        return Err(io::Error::new(io::ErrorKind::Unsupported, "c14: not a bgzf model"));
+    };
+    let mut w = bgzf::io::Writer::new(sink);
+    let r = bgzf_ops(&mut w, payload, ops);
+    before_drop();
+    drop(w);
+    r
+}
+
+/// Replays the history on `sink`. Never catches panics (callers wrap it in `guard::catch`).
+fn drive<W: Write + Send + 'static>(item: &Item, p: &Prepared, d: Drive, sink: W, before_drop: impl FnOnce()) -> io::Result<()> {
+    alt::set_phase(alt::P_UNKNOWN);
+    match d {
+        Drive::Std => corpus::write_prepared(p, sink),
+        Drive::BgzfMt => corpus::write_history_bgzf_mt(item, sink),
+        Drive::BgzfDrop => bgzf_drop_history(p, sink, before_drop),
+        Drive::Trait => alt::trait_history(p, sink),
+        Drive::Util => alt::util_history(p, sink),
+        Drive::Builder => alt::builder_history(p, sink),
+    }
+}
+
+struct Healthy {
+    bytes: Vec<u8>,
+    calls: Vec<Call>,
+}
+
+fn probe_run(item: &Item, p: &Prepared, d: Drive, half: bool) -> Result<Healthy, String> {
+    let probe = Probe { half, ..Probe::default() };
+    let r = guard::catch(|| drive(item, p, d, probe.clone(), || {}));
+    match r {
+        Err(pi) => Err(format!("panic: {} ({})", pi.message, pi.sig)),
+        Ok(Err(e)) => Err(format!("error: {:?}: {e}", e.kind())),
+        Ok(Ok(())) => {
+            let mut l = probe.log.lock().unwrap();
+            Ok(Healthy { bytes: std::mem::take(&mut l.bytes), calls: std::mem::take(&mut l.calls) })
+        }
+    }
+}
+
+// ---------------------------------------------------------------------------------------------------------------
+// phases
+
+const PH_HEADER: &str = "header";
+const PH_RECORD: &str = "record";
+const PH_FINISH: &str = "finish";
+const PH_EOF: &str = "eof-marker";
+
+/// Byte ranges of the healthy output: `[0, header_end)` header, `[header_end, finish_start)` records,
+/// `[finish_start, eof_start)` what the finishing call emits besides the end marker, `[eof_start, len)` end marker.
+struct PhaseMap {
+    header_end: usize,
+    finish_start: usize,
+    eof_start: usize,
+    len: usize,
+}
+
+impl PhaseMap {
+    fn at(&self, off: usize) -> &'static str {
+        if off >= self.eof_start && self.eof_start < self.len {
+            PH_EOF
+        } else if off >= self.finish_start {
+            PH_FINISH
+        } else if off < self.header_end {
+            PH_HEADER
+        } else {
+            PH_RECORD
+        }
+    }
+
+    fn of_call(&self, calls: &[Call], k: usize) -> &'static str {
+        match calls.get(k) {
+            None => PH_FINISH,
+            // the history announced what it was calling (alt drives)
+            Some(c) if c.tracked == alt::P_HEADER => PH_HEADER,
+            Some(c) if c.tracked == alt::P_RECORD => PH_RECORD,
+            Some(c) if c.tracked == alt::P_FINISH => PH_FINISH,
+            // inside Drop: the end marker, or whatever else was still buffered
+            Some(c) if c.tracked == alt::P_DROP => {
+                if c.off >= self.eof_start && self.eof_start < self.len { PH_EOF } else { PH_FINISH }
+            }
+            // the trailing flush of the sink is part of finishing
+            Some(c) if c.flush && k + 1 == calls.len() => PH_FINISH,
+            Some(c) => self.at(c.off),
+        }
+    }
+}
+
+fn text_header_end(bytes: &[u8], lead: u8) -> usize {
+    let mut p = 0usize;
+    while p < bytes.len() && bytes[p] == lead {
+        match bytes[p..].iter().position(|&b| b == b'\n') {
+            Some(i) => p += i + 1,
+            None => return bytes.len(),
+        }
+    }
+    p
+}
+
+/// Derived from the healthy output of THIS run (CRAM bytes differ from run to run, the container sizes do not).
+fn phase_map(item: &Item, d: Drive, out: &[u8]) -> PhaseMap {
+    let len = out.len();
+    let kind = item.kind;
+    if kind.is_bgzf_wrapped() {
+        let Ok(w) = obgzf::walk(out) else {
+            return PhaseMap { header_end: 0, finish_start: len, eof_start: len, len };
+        };
+        let data: Vec<&obgzf::Member> = w.members.iter().filter(|m| !m.is_eof_marker).collect();
+        let eof_start = match w.members.last() {
+            Some(m) if m.is_eof_marker => m.offset as usize,
+            _ => len,
+        };
+        // the last data member is what the finishing call (or Drop) flushes in the canonical histories
+        let finish_start = data.last().map(|m| m.offset as usize).unwrap_or(eof_start);
+        // members that hold header bytes of the inflated stream
+        let payload = w.concat();
+        let inflated_header_end = match kind {
+            Kind::Bam => corpus::bounds::bam_record_offsets(&payload).and_then(|v| v.first().copied()).unwrap_or(0),
+            Kind::Bcf => corpus::bounds::bcf_record_offsets(&payload).and_then(|v| v.first().copied()).unwrap_or(0),
+            Kind::SamGz => text_header_end(&payload, b'@'),
+            Kind::VcfGz => text_header_end(&payload, b'#'),
+            _ => 0,
+        };
+        let mut header_end = 0usize;
+        let mut u = 0usize;
+        for m in &data {
+            if u < inflated_header_end {
+                header_end = (m.offset + m.size) as usize;
+            }
+            u += m.data.len();
+        }
+        let _ = d;
+        return PhaseMap { header_end, finish_start, eof_start, len };
+    }
+    match kind {
+        Kind::Cram => {
+            let l = corpus::cram_layout(out);
+            let c = &l.containers;
+            let eof_start = if c.len() >= 2 { *c.last().unwrap() } else { len };
+            let header_end = if c.len() >= 2 { c[1] } else { len };
+            let finish_start = if c.len() >= 3 { c[c.len() - 2] } else { eof_start };
+            PhaseMap { header_end, finish_start: finish_start.max(header_end), eof_start, len }
+        }
+        // one gzip member; the deflate stream and the trailer (for an index without records: the gzip header too)
+        // come out of finish(): every sink call is labelled finish
+        Kind::Crai => PhaseMap { header_end: 0, finish_start: 0, eof_start: len, len },
+        Kind::Sam => PhaseMap { header_end: text_header_end(out, b'@'), finish_start: len, eof_start: len, len },
+        Kind::Vcf => PhaseMap { header_end: text_header_end(out, b'#'), finish_start: len, eof_start: len, len },
+        Kind::BamRaw => PhaseMap {
+            header_end: corpus::bounds::bam_record_offsets(out).and_then(|v| v.first().copied()).unwrap_or(0),
+            finish_start: len,
+            eof_start: len,
+            len,
+        },
+        Kind::BcfRaw => PhaseMap {
+            header_end: corpus::bounds::bcf_record_offsets(out).and_then(|v| v.first().copied()).unwrap_or(0),
+            finish_start: len,
+            eof_start: len,
+            len,
+        },
+        _ => PhaseMap { header_end: 0, finish_start: len, eof_start: len, len },
+    }
+}
+
+// ---------------------------------------------------------------------------------------------------------------
+// judging
+
+fn first_diff(a: &[u8], b: &[u8]) -> usize {
+    a.iter().zip(b).position(|(x, y)| x != y).unwrap_or(a.len().min(b.len()))
+}
+
+/// Transcript without the BGZF virtual positions (they depend on the block layout, not on the content).
+fn content_transcript(item: &Item, bytes: &[u8]) -> Result<Vec<String>, String> {
+    let t = guard::catch(|| corpus::transcript_read(item.kind, bytes, &item.side, false));
+    match t {
+        Err(p) => Err(format!("reader panicked: {}", p.message)),
+        // C: = CRAM container headers (layout, not content)
+        Ok(t) => Ok(t.into_iter().filter(|e| !e.starts_with("V:") && !e.starts_with("C:")).collect()),
+    }
+}
+
+/// `Ok(())` if `got` holds a complete file that decodes to what `want` (the healthy output) decodes to.
+fn decodes_equal(item: &Item, want: &[u8], got: &[u8]) -> Result<(), String> {
+    if got == want {
+        return Ok(());
+    }
+    let a = content_transcript(item, want)?;
+    let b = content_transcript(item, got)?;
+    if b.last().map(|s| s.as_str()) != Some("END") {
+        return Err(format!("the sink content does not read to a clean end: last element {:?} ({:?})", b.last(), corpus::last_error_message()));
+    }
+    if a != b {
+        let at = a.iter().zip(&b).position(|(x, y)| x != y).unwrap_or(a.len().min(b.len()));
+        return Err(format!(
+            "transcripts differ at element {at} of {}/{}: expected {:?}, sink content gives {:?}",
+            a.len(),
+            b.len(),
+            a.get(at).map(|s| s.chars().take(120).collect::<String>()),
+            b.get(at).map(|s| s.chars().take(120).collect::<String>())
+        ));
+    }
+    if item.kind.is_bgzf_wrapped() && !obgzf::walk(got).map(|w| w.ends_with_eof_marker()).unwrap_or(false) {
+        return Err("the sink content is not a walkable BGZF file ending with the EOF marker".into());
+    }
+    Ok(())
+}
+
+/// Is the injected error somewhere in the source chain of `e`?
+fn wraps_injected(e: &io::Error) -> bool {
+    let mut cur: Option<&(dyn std::error::Error + 'static)> = e.get_ref().map(|r| r as &(dyn std::error::Error + 'static));
+    let mut depth = 0;
+    while let Some(c) = cur {
+        if c.is::<Injected>() {
+            return true;
+        }
+        if let Some(ioe) = c.downcast_ref::<io::Error>() {
+            if is_injected(ioe) {
+                return true;
+            }
+        }
+        depth += 1;
+        if depth > 16 {
+            break;
+        }
+        cur = c.source();
+    }
+    false
+}
+
+struct Viol {
+    per_sig: BTreeMap<String, usize>,
+}
+
+impl Viol {
+    fn new() -> Self {
+        Viol { per_sig: BTreeMap::new() }
+    }
+
+    /// Keeps at most two witnesses per signature and case; the rest is counted.
+    fn add(&mut self, o: &mut CaseOut, sig: String, desc: String, witness: Value) {
+        let n = self.per_sig.entry(sig.clone()).or_insert(0);
+        *n += 1;
+        if *n <= 2 {
+            o.violation_with(sig, desc, witness);
+        } else {
+            o.count("violations_beyond_two_per_signature_and_case", 1);
+        }
+    }
+}
+
+fn mode_name(m: FaultMode) -> &'static str {
+    match m {
+        FaultMode::None => "none",
+        FaultMode::Transient(_) => "transient",
+        FaultMode::Sticky(_) => "sticky",
+    }
+}
+
+struct HCtx<'a> {
+    item: &'a Item,
+    prepared: &'a Prepared,
+    drive: Drive,
+    writer: String,
+    healthy: &'a Healthy,
+    phases: &'a PhaseMap,
+}
+
+/// One replay on a scripted sink: result of the history, the sink, sink calls made before the drop (BgzfDrop).
+fn replay(h: &HCtx, sink: &FaultyWrite) -> (Result<io::Result<()>, guard::PanicInfo>, Option<(usize, usize)>) {
+    let mark: Arc<Mutex<Option<(usize, usize)>>> = Arc::new(Mutex::new(None));
+    let m2 = mark.clone();
+    let log = sink.log.clone();
+    let r = guard::catch(|| {
+        drive(h.item, h.prepared, h.drive, sink.clone(), move || {
+            let l = log.lock().unwrap();
+            *m2.lock().unwrap() = Some((l.calls, l.errors_returned));
+        })
+    });
+    let m = *mark.lock().unwrap();
+    (r, m)
+}
+
+/// `half`: the sink accepts half of every buffer (`h.healthy` is then the healthy run on such a sink).
+fn run_fault(h: &HCtx, k: usize, mode: FaultMode, ekind: io::ErrorKind, half: bool, o: &mut CaseOut, v: &mut Viol) {
+    let n = h.healthy.calls.len();
+    let phase = h.phases.of_call(&h.healthy.calls, k);
+    let sink = FaultyWrite::new(mode, ekind, if half { Accept::Half } else { Accept::All });
+    let (res, mark) = replay(h, &sink);
+    let (errors_returned, first_error_call, calls_made) = {
+        let l = sink.log.lock().unwrap();
+        (l.errors_returned, l.first_error_call, l.calls)
+    };
+    let w = &h.writer;
+    o.count(if half { "fault_runs_on_half_accepting_sink" } else { "fault_runs" }, 1);
+    o.count(&format!("fault_runs_by_error_kind[{ekind:?}]"), 1);
+    o.count(&format!("fault_runs_by_phase[{phase}]"), 1);
+    let witness = || {
+        json!({"writer": w, "item": h.item.name, "k": k, "n": n, "mode": mode_name(mode), "error_kind": format!("{ekind:?}"), "sink_accepts_half_of_every_buffer": half,
+               "phase": phase, "offset_of_call_in_healthy_output": h.healthy.calls.get(k).map(|c| c.off),
+               "call_is_flush": h.healthy.calls.get(k).map(|c| c.flush), "errors_returned_by_sink": errors_returned,
+               "sink_calls_made": calls_made})
+    };
+    let outcome;
+    match res {
+        Err(p) => {
+            outcome = "panic";
+            v.add(
+                o,
+                format!("{w}:panic:{phase}:{}", p.sig),
+                format!(
+                    "{w} history of {}: sink call {k} of {n} ({phase}, {} {ekind:?}) failed and noodles panicked: {} at {}:{}",
+                    h.item.name,
+                    mode_name(mode),
+                    p.message,
+                    p.file,
+                    p.line
+                ),
+                witness(),
+            );
+        }
+        Ok(Ok(())) => {
+            // BgzfDrop: only failures that happened during explicit calls can be reported by a call
+            let reportable_errors = match (h.drive, mark) {
+                (Drive::BgzfDrop, Some((_, errs_before_drop))) => errs_before_drop,
+                _ => errors_returned,
+            };
+            if reportable_errors > 0 {
+                outcome = "swallowed";
+                v.add(
+                    o,
+                    format!("{w}:swallowed-sink-error:{phase}"),
+                    format!(
+                        "{w} history of {}{}: sink call {k} of {n} ({}, byte offset {:?} of the healthy output, phase {phase}) failed with {} {ekind:?}; \
+                         the sink returned {errors_returned} error(s) to noodles (first at call {first_error_call:?}) but every writer call of the \
+                         history, the finishing call included, returned Ok; the sink holds {} of {} bytes",
+                        h.item.name,
+                        if half { " on a sink that accepts half of every buffer" } else { "" },
+                        if h.healthy.calls.get(k).map(|c| c.flush).unwrap_or(false) { "a flush" } else { "a write" },
+                        h.healthy.calls.get(k).map(|c| c.off),
+                        mode_name(mode),
+                        sink.log.lock().unwrap().bytes.len(),
+                        h.healthy.bytes.len()
+                    ),
+                    witness(),
+                );
+            } else if errors_returned > 0 {
+                // failure inside Drop of a BGZF writer: no call is left to report it
+                outcome = "failed-in-drop";
+                o.count("bgzf_drop_failures_inside_drop_not_reportable", 1);
+            } else {
+                outcome = "not-reached";
+                o.count("fault_positions_not_reached", 1);
+                // all calls Ok: the destination must hold the complete file
+                let got = sink.bytes();
+                let complete = if h.drive == Drive::BgzfDrop { Ok(()) } else { decodes_equal(h.item, &h.healthy.bytes, &got) };
+                if let Err(why) = complete {
+                    let at = first_diff(&got, &h.healthy.bytes);
+                    v.add(
+                        o,
+                        format!("{w}:output-undecodable-after-ok:{}", h.phases.at(at)),
+                        format!(
+                            "{w} history of {}: with sink call {k} scripted to fail (never reached, {calls_made} calls made) all calls returned Ok \
+                             but the sink content is not the complete file: {why}",
+                            h.item.name
+                        ),
+                        witness(),
+                    );
+                }
+            }
+        }
+        Ok(Err(e)) => {
+            if errors_returned == 0 {
+                outcome = "error-without-sink-failure";
+                o.count("histories_failing_without_sink_failure", 1);
+                o.inconclusive.push(format!(
+                    "{w} history of {} returned {:?} ({e}) although the sink never failed (fault scripted at call {k}, {calls_made} calls made)",
+                    h.item.name,
+                    e.kind()
+                ));
+            } else if is_injected(&e) {
+                outcome = "surfaced";
+                o.count("faults_surfaced_as_the_injected_error", 1);
+            } else if wraps_injected(&e) {
+                outcome = "surfaced-wrapped";
+                o.count("faults_surfaced_wrapped_in_another_error", 1);
+                o.count(&format!("faults_surfaced_wrapped_in_another_error[{w}->{:?}]", e.kind()), 1);
+            } else {
+                outcome = "surfaced-other";
+                o.count("faults_surfaced_as_other_error", 1);
+                o.count(&format!("faults_surfaced_as_other_error[{w}:{:?}->{:?}]", ekind, e.kind()), 1);
+            }
+            if e.kind() != ekind && errors_returned > 0 {
+                o.count("faults_surfaced_with_a_different_error_kind", 1);
+            }
+        }
+    }
+    o.fps.push(fnv1a(format!("F|{w}|{phase}|{}|{ekind:?}|{outcome}|{half}", mode_name(mode)).as_bytes()));
+}
+
+fn judge_same_output(h: &HCtx, what: &str, class: &str, pattern: &str, sink: &FaultyWrite, res: Result<io::Result<()>, guard::PanicInfo>, o: &mut CaseOut, v: &mut Viol) {
+    let w = &h.writer;
+    let got = sink.bytes();
+    let witness = json!({"writer": w, "item": h.item.name, "pattern": pattern});
+    match res {
+        Err(p) => v.add(
+            o,
+            format!("{w}:panic:{}:{}", h.phases.at(got.len()), p.sig),
+            format!("{w} history of {} on a sink with {what} {pattern}: noodles panicked: {} at {}:{}", h.item.name, p.message, p.file, p.line),
+            witness,
+        ),
+        Ok(Err(e)) => v.add(
+            o,
+            format!("{w}:error-under-{class}:{}", h.phases.at(got.len())),
+            format!(
+                "{w} history of {} on a sink with {what} {pattern} (no failure injected): a writer call returned {:?} ({e}) after {} of {} bytes",
+                h.item.name,
+                e.kind(),
+                got.len(),
+                h.healthy.bytes.len()
+            ),
+            witness,
+        ),
+        Ok(Ok(())) => {
+            let same = if h.item.write_bytes_deterministic() {
+                if got == h.healthy.bytes { Ok(()) } else { Err(format!("{} bytes instead of {}, first difference at byte {}", got.len(), h.healthy.bytes.len(), first_diff(&got, &h.healthy.bytes))) }
+            } else if got.len() != h.healthy.bytes.len() {
+                Err(format!("{} bytes instead of {}", got.len(), h.healthy.bytes.len()))
+            } else {
+                decodes_equal(h.item, &h.healthy.bytes, &got)
+            };
+            if let Err(why) = same {
+                let at = first_diff(&got, &h.healthy.bytes);
+                v.add(
+                    o,
+                    format!("{w}:output-differs-under-{class}:{}", h.phases.at(at)),
+                    format!("{w} history of {} on a sink with {what} {pattern}: all calls returned Ok but the output differs from the healthy output: {why}", h.item.name),
+                    witness,
+                );
+            }
+        }
+    }
+}
+
+fn run_base(ctx: &Ctx, h: &HCtx, o: &mut CaseOut, v: &mut Viol) {
+    let w = h.writer.clone();
+    let item = h.item;
+    // (a) healthy FaultyWrite
+    {
+        let sink = FaultyWrite::healthy();
+        let (res, _) = replay(h, &sink);
+        o.evaluations += 1;
+        let got = sink.bytes();
+        match res {
+            Err(p) => v.add(o, format!("{w}:panic:{}:{}", h.phases.at(got.len()), p.sig), format!("{w} history of {} on a healthy sink panicked: {}", item.name, p.message), Value::Null),
+            Ok(Err(e)) => v.add(
+                o,
+                format!("{w}:not-ok-on-healthy-sink:{}", h.phases.at(got.len())),
+                format!("{w} history of {} on a healthy sink returned {:?}: {e}", item.name, e.kind()),
+                Value::Null,
+            ),
+            Ok(Ok(())) => {
+                let calls = sink.log.lock().unwrap().calls;
+                if calls != h.healthy.calls.len() {
+                    o.inconclusive.push(format!("{w} history of {}: {calls} sink calls in one healthy run, {} in another", item.name, h.healthy.calls.len()));
+                }
+                // item.bytes is what the corpus wrote on a Vec<u8>
+                let same = match h.drive {
+                    Drive::BgzfDrop => Ok(()), // judged below with the walker
+                    // other entry points: no intermediate flushes, default CRAM layout — same content, other layout
+                    Drive::Trait | Drive::Util | Drive::Builder => decodes_equal(item, &item.bytes, &got),
+                    _ if item.write_bytes_deterministic() => {
+                        if got == item.bytes { Ok(()) } else { Err(format!("{} bytes, corpus item has {}, first difference at {}", got.len(), item.bytes.len(), first_diff(&got, &item.bytes))) }
+                    }
+                    _ => decodes_equal(item, &item.bytes, &got),
+                };
+                if let Err(why) = same {
+                    v.add(o, format!("{w}:output-differs-on-healthy-sink:{}", h.phases.at(first_diff(&got, &item.bytes))), format!("{w} history of {}: {why}", item.name), Value::Null);
+                }
+                // the healthy output must itself decode (complete file)
+                if h.drive != Drive::BgzfDrop {
+                    match content_transcript(item, &got) {
+                        Ok(t) if t.last().map(|s| s.as_str()) == Some("END") => o.count("healthy_outputs_decoded", 1),
+                        Ok(t) => v.add(o, format!("{w}:output-undecodable-after-ok:{PH_FINISH}"), format!("{w} history of {}: healthy output does not read to END: {:?}", item.name, t.last()), Value::Null),
+                        Err(e) => v.add(o, format!("{w}:output-undecodable-after-ok:{PH_FINISH}"), format!("{w} history of {}: {e}", item.name), Value::Null),
+                    }
+                }
+            }
+        }
+    }
+    // (d) drop without finish on a healthy sink, through the corpus driver
+    if h.drive == Drive::BgzfDrop {
+        let sink = FaultyWrite::healthy();
+        let s2 = sink.clone();
+        let res = guard::catch(|| corpus::write_history_bgzf_drop(item, s2));
+        o.evaluations += 1;
+        let got = sink.bytes();
+        let payload = item.side.model.clone().unwrap_or_default();
+        match res {
+            Err(p) => v.add(o, format!("{w}:panic:{PH_FINISH}:{}", p.sig), format!("dropping the BGZF writer of {} panicked: {}", item.name, p.message), Value::Null),
+            Ok(Err(e)) => v.add(o, format!("{w}:not-ok-on-healthy-sink:{PH_RECORD}"), format!("{w} history of {}: {e}", item.name), Value::Null),
+            Ok(Ok(())) => match obgzf::walk(&got) {
+                Err(e) => v.add(o, format!("{w}:drop-loses-data:{PH_FINISH}"), format!("BGZF writer of {} dropped without finish: the sink content is not walkable: {e}", item.name), Value::Null),
+                Ok(wk) => {
+                    let data = wk.concat();
+                    if data != payload {
+                        v.add(
+                            o,
+                            format!("{w}:drop-loses-data:{PH_FINISH}"),
+                            format!("BGZF writer of {} dropped without finish: the sink holds {} payload bytes of {} (first difference at {})", item.name, data.len(), payload.len(), first_diff(&data, &payload)),
+                            Value::Null,
+                        );
+                    } else if !wk.ends_with_eof_marker() {
+                        v.add(o, format!("{w}:drop-loses-data:{PH_EOF}"), format!("BGZF writer of {} dropped without finish: no EOF marker at the end of the sink content", item.name), Value::Null);
+                    } else {
+                        o.count("bgzf_drop_outputs_complete", 1);
+                    }
+                    if got != h.healthy.bytes {
+                        o.inconclusive.push(format!("bgzf-drop history of {}: corpus driver and the monitor's copy of it give different bytes", item.name));
+                    }
+                }
+            },
+        }
+    }
+    // (c) short writes
+    let seed = ctx.seed ^ fnv1a(item.name.as_bytes());
+    for (pname, accept) in [
+        ("at-most-1", Accept::AtMost(1)),
+        ("at-most-7", Accept::AtMost(7)),
+        ("half", Accept::Half),
+        ("random", Accept::Random(seed)),
+    ] {
+        let sink = FaultyWrite::new(FaultMode::None, io::ErrorKind::Other, accept);
+        let (res, _) = replay(h, &sink);
+        o.evaluations += 1;
+        o.count(&format!("short_write_runs[{pname}]"), 1);
+        o.count("short_writes_delivered", sink.log.lock().unwrap().short_writes as u64);
+        judge_same_output(h, "short writes", "short-writes", pname, &sink, res, o, v);
+        o.fps.push(fnv1a(format!("S|{w}|{pname}|{}", (sink.log.lock().unwrap().short_writes > 0)).as_bytes()));
+    }
+    // (c) Interrupted before write calls (finite: at most one per write-call index)
+    let wc = h.healthy.calls.iter().filter(|c| !c.flush).count();
+    let mut rng = Rng::new(seed, 0xC14, 1);
+    let patterns: Vec<(&str, Vec<usize>)> = vec![
+        ("first", vec![0]),
+        ("every-3rd", (0..wc).step_by(3).collect()),
+        ("random-quarter", (0..wc).filter(|_| rng.chance(1, 4)).collect()),
+        ("every", (0..wc).collect()),
+    ];
+    for (pname, at) in patterns {
+        let sink = FaultyWrite::healthy().with_interrupts(at.iter().copied());
+        let (res, _) = replay(h, &sink);
+        o.evaluations += 1;
+        o.count(&format!("interrupt_runs[{pname}]"), 1);
+        let delivered = sink.log.lock().unwrap().interrupts_returned;
+        o.count("interrupts_delivered", delivered as u64);
+        judge_same_output(h, "Interrupted before write calls", "interrupts", pname, &sink, res, o, v);
+        o.fps.push(fnv1a(format!("I|{w}|{pname}|{}", delivered > 0).as_bytes()));
+    }
+    // short writes and interrupts together
+    {
+        let sink = FaultyWrite::new(FaultMode::None, io::ErrorKind::Other, Accept::AtMost(3)).with_interrupts((0..wc * 4).step_by(2));
+        let (res, _) = replay(h, &sink);
+        o.evaluations += 1;
+        o.count("interrupt_runs[at-most-3+every-2nd]", 1);
+        o.count("interrupts_delivered", sink.log.lock().unwrap().interrupts_returned as u64);
+        o.count("short_writes_delivered", sink.log.lock().unwrap().short_writes as u64);
+        judge_same_output(h, "short writes (at most 3 bytes) and Interrupted before", "interrupts", "every-2nd", &sink, res, o, v);
+    }
+}
+
+// ---------------------------------------------------------------------------------------------------------------
+// case generation
+
+struct World {
+    items: Vec<Item>,
+    hists: Vec<Hist>,
+    cases: Vec<Case>,
+    skipped_large: Vec<String>,
+    unwritable: usize,
+}
+
+fn gen_world(ctx: &Ctx) -> World {
+    // quick: the tiny and the small corpus of the seed; thorough: several corpus seeds, all scales
+    let mut items: Vec<Item> = Vec::new();
+    let mut seen: BTreeSet<(String, u64)> = BTreeSet::new();
+    let corpus_seeds = ctx.budget("corpus_seeds", 1, 6);
+    let scales: &[u8] = if ctx.quick() { &[0, 1] } else { &[0, 1, 2] };
+    for s in 0..corpus_seeds {
+        for &scale in scales {
+            for it in corpus::items(ctx.seed.wrapping_add(s.wrapping_mul(1_000_003)), scale) {
+                // fixtures (CRAM) and seed-independent items repeat: keep one copy
+                if seen.insert((it.name.clone(), fnv1a(&it.bytes))) {
+                    items.push(it);
+                }
+            }
+        }
+    }
+    let unwritable = items.iter().filter(|i| !i.writable()).count();
+    items.retain(|i| i.writable());
+
+    let max_n = ctx.budget("max_calls", 4000, 80000) as usize;
+    let per_kind = ctx.budget("per_kind", 4, 30) as usize;
+    let half_max = ctx.budget("half_max_calls", 1500, 6000) as usize;
+    let only = ctx.param("only");
+
+    // candidate histories with their healthy call counts
+    let mut cand: Vec<Hist> = Vec::new();
+    for (i, it) in items.iter().enumerate() {
+        let drives = drives_of(it.kind);
+        let Ok(p) = corpus::prepare_write(it) else {
+            cand.push(Hist { item: i, drive: Drive::Std, n: 0, n_half: 0 });
+            continue;
+        };
+        for &d in &drives {
+            if let Some(o) = only {
+                if writer_name(it.kind, d) != o {
+                    continue;
+                }
+            }
+            let n = probe_run(it, &p, d, false).map(|h| h.calls.len()).unwrap_or(0);
+            // the background thread of the multithreaded writer emits frames exactly like the single-threaded one
+            let n_half = if n > 0 && n <= half_max && d != Drive::BgzfMt { probe_run(it, &p, d, true).map(|h| h.calls.len()).unwrap_or(0) } else { 0 };
+            cand.push(Hist { item: i, drive: d, n, n_half });
+        }
+    }
+    // per writer: at most `per_kind` histories with N <= max_n, in corpus order (tiny, header-only, small, ...);
+    // prefer distinct N so that two copies of the same shape do not use up the budget
+    let mut hists: Vec<Hist> = Vec::new();
+    let mut skipped_large = Vec::new();
+    let mut taken: BTreeMap<String, Vec<usize>> = BTreeMap::new();
+    let mut deferred: Vec<Hist> = Vec::new();
+    for h in cand {
+        let w = h.writer_name(&items);
+        if h.n > max_n {
+            skipped_large.push(format!("{}:{}(N={})", w, items[h.item].name, h.n));
+            continue;
+        }
+        let t = taken.entry(w).or_default();
+        if t.len() >= per_kind {
+            continue;
+        }
+        if t.contains(&h.n) {
+            deferred.push(h);
+            continue;
+        }
+        t.push(h.n);
+        hists.push(h);
+    }
+    for h in deferred {
+        let t = taken.entry(h.writer_name(&items)).or_default();
+        if t.len() < per_kind {
+            t.push(h.n);
+            hists.push(h);
+        }
+    }
+    hists.sort_by_key(|h| (h.item, h.drive));
+
+    // cases: one Base per history, fault positions in chunks of bounded cost (a run that fails at call k costs ~k)
+    let chunk_cost = ctx.budget("chunk_cost", 400_000, 1_500_000) as usize;
+    let mut cases = Vec::new();
+    for (hi, h) in hists.iter().enumerate() {
+        cases.push(Case { hist: hi, part: Part::Base });
+        let per_run_overhead = if h.drive == Drive::BgzfMt { 4000 } else { 60 };
+        let mut lo = 0usize;
+        let mut cost = 0usize;
+        for k in 0..h.n {
+            cost += 2 * (k + per_run_overhead);
+            if cost >= chunk_cost || k + 1 == h.n {
+                cases.push(Case { hist: hi, part: Part::Faults { lo, hi: k + 1 } });
+                lo = k + 1;
+                cost = 0;
+            }
+        }
+        let mut lo = 0usize;
+        let mut cost = 0usize;
+        for k in 0..h.n_half {
+            cost += k + per_run_overhead;
+            if cost >= chunk_cost || k + 1 == h.n_half {
+                cases.push(Case { hist: hi, part: Part::FaultsHalf { lo, hi: k + 1 } });
+                lo = k + 1;
+                cost = 0;
+            }
+        }
+    }
+    World { items, hists, cases, skipped_large, unwritable }
+}
+
+fn case_json(w: &World, c: &Case) -> Value {
+    let h = &w.hists[c.hist];
+    let it = &w.items[h.item];
+    let (part, lo, hi) = match c.part {
+        Part::Base => ("base", 0, 0),
+        Part::Faults { lo, hi } => ("faults", lo, hi),
+        Part::FaultsHalf { lo, hi } => ("faults-on-half-accepting-sink", lo, hi),
+    };
+    json!({"writer": h.writer_name(&w.items), "item": it.name, "item_len": it.bytes.len(), "drive": h.drive.name(), "part": part, "lo": lo, "hi": hi, "n": h.n})
+}
+
+fn run_case(ctx: &Ctx, w: &World, c: &Case) -> CaseOut {
+    let mut o = CaseOut::new();
+    o.evaluations = 0;
+    let h = &w.hists[c.hist];
+    let item = &w.items[h.item];
+    let writer = h.writer_name(&w.items);
+    let mut v = Viol::new();
+    let prepared = match guard::catch(|| corpus::prepare_write(item)) {
+        Ok(Ok(p)) => p,
+        Ok(Err(e)) => {
+            o.inconclusive.push(format!("corpus item {} cannot be prepared for writing: {e}", item.name));
+            return o;
+        }
+        Err(p) => {
+            o.inconclusive.push(format!("corpus item {}: prepare_write panicked: {}", item.name, p.message));
+            return o;
+        }
+    };
+    let half = matches!(c.part, Part::FaultsHalf { .. });
+    let healthy = match probe_run(item, &prepared, h.drive, half) {
+        Ok(hh) => hh,
+        Err(e) => {
+            if matches!(c.part, Part::Base) {
+                o.evaluations += 1;
+                let class = if e.starts_with("panic") { "panic" } else { "not-ok-on-healthy-sink" };
+                v.add(&mut o, format!("{writer}:{class}:{PH_RECORD}"), format!("{writer} history of {} on a healthy sink: {e}", item.name), Value::Null);
+            }
+            return o;
+        }
+    };
+    let phases = phase_map(item, h.drive, &healthy.bytes);
+    let hc = HCtx { item, prepared: &prepared, drive: h.drive, writer: writer.clone(), healthy: &healthy, phases: &phases };
+    let expected_calls = if half { h.n_half } else { h.n };
+    if healthy.calls.len() != expected_calls {
+        o.inconclusive.push(format!("{writer} history of {}: {} sink calls now, {expected_calls} when the cases were generated", item.name, healthy.calls.len()));
+    }
+    match c.part {
+        Part::Base => {
+            o.count(&format!("histories[{writer}]"), 1);
+            o.count("histories", 1);
+            o.count(&format!("fault_positions_total[{writer}]"), healthy.calls.len() as u64);
+            o.count("fault_positions_total", healthy.calls.len() as u64);
+            o.max("max_sink_calls_of_a_history", healthy.calls.len() as u64);
+            o.max(&format!("max_sink_calls[{writer}]"), healthy.calls.len() as u64);
+            if h.n_half > 0 {
+                o.count("fault_positions_on_half_accepting_sink_total", h.n_half as u64);
+            }
+            o.count("flush_calls_in_healthy_histories", healthy.calls.iter().filter(|c| c.flush).count() as u64);
+            run_base(ctx, &hc, &mut o, &mut v);
+            o.fp = fnv1a(format!("B|{writer}|{}", item.name).as_bytes());
+            o.sample = Some(json!({"writer": writer, "item": item.name, "sink_calls": healthy.calls.len(), "bytes": healthy.bytes.len()}));
+        }
+        Part::Faults { lo, hi } => {
+            let rot = (fnv1a(item.name.as_bytes()) % ERROR_KINDS.len() as u64) as usize;
+            for k in lo..hi.min(healthy.calls.len()) {
+                let k1 = ERROR_KINDS[(k + rot) % ERROR_KINDS.len()];
+                let k2 = ERROR_KINDS[(k + rot + 3) % ERROR_KINDS.len()];
+                run_fault(&hc, k, FaultMode::Sticky(k), k1, false, &mut o, &mut v);
+                run_fault(&hc, k, FaultMode::Transient(k), k2, false, &mut o, &mut v);
+                o.evaluations += 2;
+                o.count("fault_positions_enumerated", 1);
+                o.count(&format!("fault_positions_enumerated[{writer}]"), 1);
+            }
+        }
+        Part::FaultsHalf { lo, hi } => {
+            let rot = (fnv1a(item.name.as_bytes()) % ERROR_KINDS.len() as u64) as usize;
+            for k in lo..hi.min(healthy.calls.len()) {
+                let k1 = ERROR_KINDS[(k + rot + 5) % ERROR_KINDS.len()];
+                run_fault(&hc, k, FaultMode::Sticky(k), k1, true, &mut o, &mut v);
+                o.evaluations += 1;
+                o.count("fault_positions_on_half_accepting_sink_enumerated", 1);
+            }
+        }
+    }
+    o
+}
 
 fn main() {
-    eprintln!("c14: not implemented");
-    std::process::exit(2);
+    // the multithreaded writer compresses on the global rayon pool; children run concurrently, keep the pools small
+    let _ = rayon::ThreadPoolBuilder::new().num_threads(4).build_global();
+    let ctx = Ctx::from_args();
+    let ctx = vcore::cases::replay_request(&ctx).map(|r| r.1).unwrap_or(ctx);
+    let mut rep = Report::new(
+        "history = canonical write history (corpus crate) of one writable corpus item through the noodles writer of its kind (BGZF items also \
+         through MultithreadedWriter and through a writer dropped without finish); evaluation = one replay of a history on a scripted sink \
+         (healthy, call k failing sticky / transient for EVERY k of the healthy run, 4 short-write patterns, 5 Interrupted patterns); distinct = \
+         distinct (writer, phase of the failing call, sticky/transient, error kind, outcome class) for fault runs, (writer, pattern, pattern took \
+         effect) for short-write / Interrupted runs, (writer, item) for base cases; non-trivial = all",
+    );
+    rep.assumptions.push("the corpus write histories (corpus::write_prepared) call the documented finishing call of each writer and flush the sink last; they contain no buffering layer of their own".into());
+    rep.assumptions.push("after the first Err of any call the history stops and drops the writer; nothing is required of later calls".into());
+    rep.assumptions.push("a failure reported later than call k (at flush / finish) or wrapped in another error counts as reported".into());
+    rep.assumptions.push("phase labels are derived from the byte offset of the failing sink call in the healthy output (last BGZF data member / last CRAM data container = finish)".into());
+
+    let world = gen_world(&ctx);
+    if ctx.param("list").is_some() {
+        for h in &world.hists {
+            let it = &world.items[h.item];
+            eprintln!("{:10} {:55} bytes={:7} N={}", h.writer_name(&world.items), it.name, it.bytes.len(), h.n);
+        }
+        eprintln!("{} histories, {} cases, {} skipped as too large: {:?}", world.hists.len(), world.cases.len(), world.skipped_large.len(), world.skipped_large);
+        std::process::exit(0);
+    }
+    let f = |i: u64| -> CaseOut { run_case(&ctx, &world, &world.cases[i as usize]) };
+    run_cases(&ctx, &mut rep, world.cases.len() as u64, 300.0, &f, &|i| case_json(&world, &world.cases[i as usize]));
+
+    if ctx.replay.is_none() {
+        let get = |rep: &Report, k: &str| rep.counters.get(k).copied().unwrap_or(0);
+        // every fault position of every history enumerated?
+        let total = get(&rep, "fault_positions_total");
+        let done = get(&rep, "fault_positions_enumerated");
+        rep.extra.insert("fraction_of_fault_positions_enumerated".into(), json!(if total == 0 { 0.0 } else { done as f64 / total as f64 }));
+        if done != total {
+            rep.floors_unmet.push(format!("fault positions enumerated {done} != sink calls of the healthy histories {total}"));
+        }
+        let (htotal, hdone) = (get(&rep, "fault_positions_on_half_accepting_sink_total"), get(&rep, "fault_positions_on_half_accepting_sink_enumerated"));
+        if hdone != htotal {
+            rep.floors_unmet.push(format!("fault positions on half-accepting sinks enumerated {hdone} != sink calls of those healthy histories {htotal}"));
+        }
+        rep.exhaustive = Some(done == total && total > 0 && hdone == htotal);
+        let mut writers = Vec::new();
+        let mut missing = Vec::new();
+        let expected: Vec<String> = Kind::ALL.iter().flat_map(|&k| drives_of(k).into_iter().map(move |d| writer_name(k, d))).collect();
+        for wn in expected {
+            let n = get(&rep, &format!("histories[{wn}]"));
+            let t = get(&rep, &format!("fault_positions_total[{wn}]"));
+            let e = get(&rep, &format!("fault_positions_enumerated[{wn}]"));
+            if n == 0 {
+                missing.push(wn.clone());
+            }
+            writers.push(json!({"writer": wn, "histories": n, "sink_calls": t, "fault_positions_enumerated": e}));
+        }
+        rep.extra.insert("writers".into(), json!(writers));
+        rep.extra.insert("histories_skipped_as_too_large_for_the_tier".into(), json!(world.skipped_large));
+        rep.extra.insert("corpus_items_without_write_history".into(), json!(world.unwritable));
+        if ctx.param("only").is_none() {
+            if !missing.is_empty() {
+                rep.floors_unmet.push(format!("writers without any history: {missing:?}"));
+            }
+            rep.floor("fault_positions_enumerated", done, 2000);
+            rep.floor("short_writes_delivered", get(&rep, "short_writes_delivered"), 1000);
+            rep.floor("interrupts_delivered", get(&rep, "interrupts_delivered"), 1000);
+            let surfaced = get(&rep, "faults_surfaced_as_the_injected_error") + get(&rep, "faults_surfaced_wrapped_in_another_error") + get(&rep, "faults_surfaced_as_other_error");
+            rep.floor("faults_surfaced", surfaced, 2000);
+        }
+    }
+    rep.finish(&ctx);
 }
